@@ -28,8 +28,8 @@ Proof. destruct l; cbn; split; intros H; try reflexivity; try discriminate; try 
 (* ------------------------------------------------------------------ the spec predicates *)
 (* "a currently valid session token": HMAC-signed under the relay secret, inside its window with all
    three dates present, addressed to this host, complete in its required claims *)
-Definition good_bearer (now : Z) (host : string) (b : bearer) : Prop :=
-  b_shape b = SWell /\ is_hmac (b_alg b) = true /\ b_sig_ok b = true /\
+Definition good_bearer (now : Z) (host : string) (secret : N) (b : bearer) : Prop :=
+  b_shape b = SWell /\ is_hmac (b_alg b) = true /\ sig_ok secret b = true /\
   (exists e i n, c_exp (b_claims b) = Some e /\ c_iat (b_claims b) = Some i /\ c_nbf (b_claims b) = Some n /\
                  (now < e)%Z /\ (i <= now)%Z /\ (n <= now)%Z) /\
   In host (c_aud (b_claims b)) /\
@@ -37,8 +37,8 @@ Definition good_bearer (now : Z) (host : string) (b : bearer) : Prop :=
 
 (* a verified, unexpired token for this host that carries scopes (what the admin and status endpoints need
    besides their own scope): iat / nbf are optional, as in jwt *)
-Definition valid_principal (now : Z) (host : string) (b : bearer) : Prop :=
-  b_shape b = SWell /\ is_hmac (b_alg b) = true /\ b_sig_ok b = true /\
+Definition valid_principal (now : Z) (host : string) (secret : N) (b : bearer) : Prop :=
+  b_shape b = SWell /\ is_hmac (b_alg b) = true /\ sig_ok secret b = true /\
   (exists e, c_exp (b_claims b) = Some e /\ (now < e)%Z) /\
   (forall i, c_iat (b_claims b) = Some i -> (i <= now)%Z) /\
   (forall n, c_nbf (b_claims b) = Some n -> (n <= now)%Z) /\
@@ -51,40 +51,40 @@ Definition bound_params (s : st) (r : request) : Prop :=
 Definition valid_request (cfg : config) (s : st) (r : request) : Prop :=
   match r_route r with
   | RSession id =>
-      exists b, r_cred r = Bearer b /\ good_bearer (clock s) (cfg_host cfg) b /\
+      exists b, r_cred r = Bearer b /\ good_bearer (clock s) (cfg_host cfg) (cfg_secret cfg) b /\
                 c_topic (b_claims b) = id /\
                 (c_booking (b_claims b) = 0%N -> cfg_allow_empty cfg = true) /\
                 denied s (c_booking (b_claims b)) = false
   | RDeny | RAllow =>
-      exists b, r_cred r = Bearer b /\ valid_principal (clock s) (cfg_host cfg) b /\
+      exists b, r_cred r = Bearer b /\ valid_principal (clock s) (cfg_host cfg) (cfg_secret cfg) b /\
                 In "relay:admin" (c_scopes (b_claims b)) /\ bound_params s r
   | RListDeny | RListAllow =>
-      exists b, r_cred r = Bearer b /\ valid_principal (clock s) (cfg_host cfg) b /\
+      exists b, r_cred r = Bearer b /\ valid_principal (clock s) (cfg_host cfg) (cfg_secret cfg) b /\
                 In "relay:admin" (c_scopes (b_claims b))
   | RStatus =>
-      exists b, r_cred r = Bearer b /\ valid_principal (clock s) (cfg_host cfg) b /\
+      exists b, r_cred r = Bearer b /\ valid_principal (clock s) (cfg_host cfg) (cfg_secret cfg) b /\
                 In "relay:stats" (c_scopes (b_claims b))
   | RNotFound | RBadMethod | ROpaque => False
   end.
 
 (* ------------------------------------------------------------------ the authenticator *)
-Lemma validate_bearer_principal now host b c :
-  validate_bearer now host b = Principal c ->
-  c = b_claims b /\ b_shape b = SWell /\ is_hmac (b_alg b) = true /\ b_sig_ok b = true /\
+Lemma validate_bearer_principal now host secret b c :
+  validate_bearer now host secret b = Principal c ->
+  c = b_claims b /\ b_shape b = SWell /\ is_hmac (b_alg b) = true /\ sig_ok secret b = true /\
   claims_time_ok now c = true /\ In host (c_aud c).
 Proof.
   unfold validate_bearer. destruct (b_shape b) eqn:Hs; try discriminate.
   destruct (alg_registered (b_alg b)); cbn [negb]; [|discriminate].
   destruct (is_hmac (b_alg b)) eqn:Hh; cbn [negb]; [|discriminate].
   destruct (claims_time_ok now (b_claims b)) eqn:Ht; cbn [andb negb]; [|discriminate].
-  destruct (b_sig_ok b) eqn:Hg; cbn [negb]; [|discriminate].
+  destruct (sig_ok secret b) eqn:Hg; cbn [negb]; [|discriminate].
   destruct (verify_aud (c_aud (b_claims b)) host) eqn:Ha; cbn [negb]; [|discriminate].
   intros H; inversion H; subst c. repeat split; auto. apply verify_aud_in; exact Ha.
 Qed.
 
-Lemma validate_header_principal now host cr c :
-  validate_header now host cr = Principal c ->
-  exists b, cr = Bearer b /\ c = b_claims b /\ b_shape b = SWell /\ is_hmac (b_alg b) = true /\ b_sig_ok b = true /\
+Lemma validate_header_principal now host secret cr c :
+  validate_header now host secret cr = Principal c ->
+  exists b, cr = Bearer b /\ c = b_claims b /\ b_shape b = SWell /\ is_hmac (b_alg b) = true /\ sig_ok secret b = true /\
             claims_time_ok now c = true /\ In host (c_aud c).
 Proof.
   destruct cr as [|b]; cbn; [discriminate|]. intros H. exists b. split; [reflexivity|].
@@ -256,10 +256,10 @@ Proof.
 Qed.
 
 (* what a verified principal is, in terms of the bearer presented *)
-Lemma principal_valid now host cr c x :
-  validate_header now host cr = Principal c ->
+Lemma principal_valid now host secret cr c x :
+  validate_header now host secret cr = Principal c ->
   In x (c_scopes c) -> (exists e, c_exp c = Some e) ->
-  exists b, cr = Bearer b /\ c = b_claims b /\ valid_principal now host b /\ In x (c_scopes (b_claims b)).
+  exists b, cr = Bearer b /\ c = b_claims b /\ valid_principal now host secret b /\ In x (c_scopes (b_claims b)).
 Proof.
   intros Hv Hx [e He]. apply validate_header_principal in Hv.
   destruct Hv as (b & -> & -> & Hs & Hh & Hg & Ht & Ha). exists b. repeat split; auto.
@@ -276,7 +276,7 @@ Proof.
   destruct (handle true cfg s r) as [s' x] eqn:H. cbn [snd]. intros ->.
   unfold handle in H.
   destruct (r_route r) eqn:Hr; try (inversion H; fail);
-    destruct (validate_header (clock s) (cfg_host cfg) (r_cred r)) as [| |c]; try (inversion H; fail).
+    destruct (validate_header (clock s) (cfg_host cfg) (cfg_secret cfg) (r_cred r)) as [| |c]; try (inversion H; fail).
   - apply session_step_cases in H. destruct H as [[Hf _]|(e & i & n & _ & _ & _ & _ & _ & _ & _ & _ & _ & Hm)]; [exact Hf|].
     unfold mint in Hm. inversion Hm.
   - destruct (bind_params r) as [[b e]|]; [|inversion H].
@@ -294,7 +294,7 @@ Proof.
   destruct (handle true cfg s r) as [s' x] eqn:H. cbn [snd].
   unfold handle in H.
   destruct (r_route r) eqn:Hr; try (inversion H; left; cbn; lia);
-    destruct (validate_header (clock s) (cfg_host cfg) (r_cred r)) as [| |c]; try (inversion H; left; cbn; lia).
+    destruct (validate_header (clock s) (cfg_host cfg) (cfg_secret cfg) (r_cred r)) as [| |c]; try (inversion H; left; cbn; lia).
   - apply session_step_cases in H. destruct H as [[Hf _]|(e & i & n & _ & _ & _ & _ & _ & _ & _ & _ & _ & Hm)]; [left; exact Hf|].
     unfold mint in Hm. inversion Hm. right; cbn; lia.
   - destruct (bind_params r) as [[b e]|]; [|inversion H; left; cbn; lia].
@@ -312,7 +312,7 @@ Proof.
   destruct (handle true cfg s r) as [s' x] eqn:H. cbn [fst snd]. intros Hf.
   unfold handle in H.
   destruct (r_route r) eqn:Hr; try (inversion H; reflexivity);
-    destruct (validate_header (clock s) (cfg_host cfg) (r_cred r)) as [| |c]; try (inversion H; reflexivity).
+    destruct (validate_header (clock s) (cfg_host cfg) (cfg_secret cfg) (r_cred r)) as [| |c]; try (inversion H; reflexivity).
   - apply session_step_cases in H. destruct H as [[_ ->]|(e & i & n & _ & _ & _ & _ & _ & _ & _ & _ & _ & Hm)]; [reflexivity|].
     unfold mint in Hm. inversion Hm; subst x. cbn in Hf; lia.
   - destruct (bind_params r) as [[b e]|]; [|inversion H; reflexivity].
@@ -330,7 +330,7 @@ Proof.
   destruct (handle true cfg s r) as [s' x] eqn:H. cbn [snd]. intros Hs.
   unfold handle in H. unfold valid_request.
   destruct (r_route r) eqn:Hr; try (inversion H; subst x; cbn in Hs; lia);
-    destruct (validate_header (clock s) (cfg_host cfg) (r_cred r)) as [| |c] eqn:Hv; try (inversion H; subst x; cbn in Hs; lia).
+    destruct (validate_header (clock s) (cfg_host cfg) (cfg_secret cfg) (r_cred r)) as [| |c] eqn:Hv; try (inversion H; subst x; cbn in Hs; lia).
   - apply session_step_cases in H.
     destruct H as [[Hf _]|(e & i & n & He & Hi & Hn & Ht & Hsc & Hp & Hid & Hb & Hd & _)]; [exfalso; eapply refusal_not_success; eauto|].
     apply validate_header_principal in Hv. destruct Hv as (b & Hc & -> & Hsh & Hh & Hg & Htm & Ha).
@@ -340,28 +340,28 @@ Proof.
   - destruct (bind_params r) as [[b e]|] eqn:Hb; [|inversion H; subst x; cbn in Hs; lia].
     apply deny_step_cases in H. destruct H as [[Hf _]|(Hsc & Hb0 & Hc & _ & _)]; [exfalso; eapply refusal_not_success; eauto|].
     apply has_scope_true in Hsc. destruct Hsc as (Hin & _ & Hex).
-    destruct (principal_valid _ _ _ _ _ Hv Hin Hex) as (bb & -> & -> & Hvp & Hin'). exists bb. split; [reflexivity|]. split; [exact Hvp|]. split; [exact Hin'|].
+    destruct (principal_valid _ _ _ _ _ _ Hv Hin Hex) as (bb & -> & -> & Hvp & Hin'). exists bb. split; [reflexivity|]. split; [exact Hvp|]. split; [exact Hin'|].
     apply bind_params_some in Hb. destruct Hb as (B1 & B2 & raw & B3 & B4). exists b, raw, e. auto.
   - destruct (bind_params r) as [[b e]|] eqn:Hb; [|inversion H; subst x; cbn in Hs; lia].
     apply allow_step_cases in H. destruct H as [[Hf _]|(Hsc & Hb0 & Hc & _ & _)]; [exfalso; eapply refusal_not_success; eauto|].
     apply has_scope_true in Hsc. destruct Hsc as (Hin & _ & Hex).
-    destruct (principal_valid _ _ _ _ _ Hv Hin Hex) as (bb & -> & -> & Hvp & Hin'). exists bb. split; [reflexivity|]. split; [exact Hvp|]. split; [exact Hin'|].
+    destruct (principal_valid _ _ _ _ _ _ Hv Hin Hex) as (bb & -> & -> & Hvp & Hin'). exists bb. split; [reflexivity|]. split; [exact Hvp|]. split; [exact Hin'|].
     apply bind_params_some in Hb. destruct Hb as (B1 & B2 & raw & B3 & B4). exists b, raw, e. auto.
   - apply (list_step_cases true) in H. destruct H as [_ [->|[Hsc _]]]; [cbn in Hs; lia|].
     apply has_scope_true in Hsc. destruct Hsc as (Hin & _ & Hex).
-    destruct (principal_valid _ _ _ _ _ Hv Hin Hex) as (bb & -> & -> & Hvp & Hin'). exists bb. auto.
+    destruct (principal_valid _ _ _ _ _ _ Hv Hin Hex) as (bb & -> & -> & Hvp & Hin'). exists bb. auto.
   - apply (list_step_cases false) in H. destruct H as [_ [->|[Hsc _]]]; [cbn in Hs; lia|].
     apply has_scope_true in Hsc. destruct Hsc as (Hin & _ & Hex).
-    destruct (principal_valid _ _ _ _ _ Hv Hin Hex) as (bb & -> & -> & Hvp & Hin'). exists bb. auto.
+    destruct (principal_valid _ _ _ _ _ _ Hv Hin Hex) as (bb & -> & -> & Hvp & Hin'). exists bb. auto.
   - apply status_step_cases in H. destruct H as [_ [->|[Hsc _]]]; [cbn in Hs; lia|].
     apply has_scope_true in Hsc. destruct Hsc as (Hin & _ & Hex).
-    destruct (principal_valid _ _ _ _ _ Hv Hin Hex) as (bb & -> & -> & Hvp & Hin'). exists bb. auto.
+    destruct (principal_valid _ _ _ _ _ _ Hv Hin Hex) as (bb & -> & -> & Hvp & Hin'). exists bb. auto.
 Qed.
 
 (* ------------------------------------------------------------------ C01: bad session requests *)
 Lemma session_rejects_bad cfg s id cr bid ex :
   (forall b, cr = Bearer b ->
-     ~ good_bearer (clock s) (cfg_host cfg) b \/ c_topic (b_claims b) <> id \/
+     ~ good_bearer (clock s) (cfg_host cfg) (cfg_secret cfg) b \/ c_topic (b_claims b) <> id \/
      (c_booking (b_claims b) = 0%N /\ cfg_allow_empty cfg = false) \/ denied s (c_booking (b_claims b)) = true) ->
   refusal (snd (handle true cfg s (mkreq (RSession id) cr bid ex))) /\
   fst (handle true cfg s (mkreq (RSession id) cr bid ex)) = s.
@@ -389,7 +389,7 @@ Qed.
 Lemma admin_only cfg s r :
   admin_route (r_route r) ->
   success (snd (handle true cfg s r)) \/ fst (handle true cfg s r) <> s ->
-  exists b, r_cred r = Bearer b /\ valid_principal (clock s) (cfg_host cfg) b /\ In "relay:admin" (c_scopes (b_claims b)).
+  exists b, r_cred r = Bearer b /\ valid_principal (clock s) (cfg_host cfg) (cfg_secret cfg) b /\ In "relay:admin" (c_scopes (b_claims b)).
 Proof.
   intros Ha Hs. assert (H : success (snd (handle true cfg s r))) by (destruct Hs; [assumption|apply changed_means_success; assumption]).
   apply handle_success_valid in H. unfold valid_request in H.
@@ -400,7 +400,7 @@ Qed.
 Lemma stats_only cfg s r :
   r_route r = RStatus ->
   success (snd (handle true cfg s r)) \/ fst (handle true cfg s r) <> s ->
-  exists b, r_cred r = Bearer b /\ valid_principal (clock s) (cfg_host cfg) b /\ In "relay:stats" (c_scopes (b_claims b)).
+  exists b, r_cred r = Bearer b /\ valid_principal (clock s) (cfg_host cfg) (cfg_secret cfg) b /\ In "relay:stats" (c_scopes (b_claims b)).
 Proof.
   intros Ha Hs. assert (H : success (snd (handle true cfg s r))) by (destruct Hs; [assumption|apply changed_means_success; assumption]).
   apply handle_success_valid in H. unfold valid_request in H. rewrite Ha in H. exact H.
@@ -423,7 +423,7 @@ Proof.
 Qed.
 
 Lemma missing_scope_401 cfg s r c :
-  validate_header (clock s) (cfg_host cfg) (r_cred r) = Principal c ->
+  validate_header (clock s) (cfg_host cfg) (cfg_secret cfg) (r_cred r) = Principal c ->
   (r_route r = RListDeny /\ ~ In "relay:admin" (c_scopes c)) \/
   (r_route r = RListAllow /\ ~ In "relay:admin" (c_scopes c)) \/
   (r_route r = RDeny /\ bind_params r <> None /\ ~ In "relay:admin" (c_scopes c)) \/
@@ -474,8 +474,8 @@ Proof. intros H. rewrite (handle_refusal_frame cfg s r H). auto. Qed.
 Definition f07_claims (e i n : option Z) : claims :=
   mkclaims "t" "session" 1 ["read"; "relay:admin"; "relay:stats"] ["h"] e n i.
 Definition f07_req (rt : route) (e i n : option Z) : request :=
-  mkreq rt (Bearer (mkbearer SWell HS256 true (f07_claims e i n))) (Some 1%N) (Some "99").
-Definition f07_cfg : config := mkconfig false "h" "w" "w" 30.
+  mkreq rt (Bearer (mkbearer SWell HS256 [] (Some 7%N) (f07_claims e i n))) (Some 1%N) (Some "99").
+Definition f07_cfg : config := mkconfig false "h" "w" "w" 30 7.
 
 Lemma unguarded_faults :
   Forall (fun rt => snd (handle false f07_cfg (init 10) (f07_req rt None (Some 5%Z) (Some 5%Z))) = Panic)
@@ -483,3 +483,96 @@ Lemma unguarded_faults :
   handle false f07_cfg (init 10) (f07_req (RSession "t") (Some 50%Z) None (Some 5%Z))
     = (set_reg (init 10) (do_allow (reg (init 10)) 1 50), Panic).
 Proof. split; [repeat constructor|reflexivity]. Qed.
+
+(* ------------------------------------------------------------------ the secret, the key, the header *)
+(* a signature verifies only under the key it was made with: acceptance means that key IS the configured secret *)
+Lemma sig_ok_exact secret b : sig_ok secret b = true <-> b_signed b = Some secret.
+Proof.
+  unfold sig_ok. destruct (b_signed b) as [k|]; [|split; discriminate].
+  rewrite N.eqb_eq. split; [intros ->; reflexivity|intros H; inversion H; reflexivity].
+Qed.
+
+Lemma principal_signed_with_secret now host secret cr c :
+  validate_header now host secret cr = Principal c -> exists b, cr = Bearer b /\ b_signed b = Some secret.
+Proof.
+  intros H. apply validate_header_principal in H. destruct H as (b & -> & _ & _ & _ & Hg & _).
+  exists b. split; [reflexivity|apply sig_ok_exact; exact Hg].
+Qed.
+
+(* any other key - the empty one, a part or a prefix of the secret, a longer one - and no HMAC at all: refused by
+   the authenticator, on every route that has one, with nothing changed *)
+Lemma unauthenticated_refused cfg s r :
+  (forall c, validate_header (clock s) (cfg_host cfg) (cfg_secret cfg) (r_cred r) <> Principal c) ->
+  refusal (snd (handle true cfg s r)) /\ fst (handle true cfg s r) = s.
+Proof.
+  intros Hn. unfold handle.
+  destruct (r_route r); try (cbn; split; [lia|reflexivity]);
+    destruct (validate_header (clock s) (cfg_host cfg) (cfg_secret cfg) (r_cred r)) as [| |c] eqn:Hv;
+    try (cbn; split; [lia|reflexivity]); exfalso; apply (Hn c); reflexivity.
+Qed.
+
+Lemma wrong_key_refused cfg s r b :
+  r_cred r = Bearer b -> b_signed b <> Some (cfg_secret cfg) ->
+  refusal (snd (handle true cfg s r)) /\ fst (handle true cfg s r) = s.
+Proof.
+  intros Hc Hk. apply unauthenticated_refused. intros c Hv.
+  apply principal_signed_with_secret in Hv. destruct Hv as (b' & Hc' & Hs). congruence.
+Qed.
+
+(* the further header members are read by nobody *)
+Definition set_header (b : bearer) (h : list string) : bearer :=
+  mkbearer (b_shape b) (b_alg b) h (b_signed b) (b_claims b).
+
+Lemma header_irrelevant cfg s rt b h bid ex :
+  handle true cfg s (mkreq rt (Bearer (set_header b h)) bid ex) = handle true cfg s (mkreq rt (Bearer b) bid ex).
+Proof. reflexivity. Qed.
+
+(* ------------------------------------------------------------------ query values *)
+Lemma parse_int64_range s v : parse_int64 s = Some v -> (-9223372036854775808 <= v <= 9223372036854775807)%Z.
+Proof.
+  unfold parse_int64.
+  destruct (match s with
+            | EmptyString => (false, s)
+            | String a r => if Ascii.eqb a "-" then (true, r) else if Ascii.eqb a "+" then (false, r) else (false, s)
+            end) as [neg digits].
+  destruct digits as [|d ds]; [discriminate|].
+  destruct (digits_val (String d ds) 0) as [w|]; [|discriminate].
+  destruct ((-9223372036854775808 <=? (if neg then (- w)%Z else w))%Z && ((if neg then (- w)%Z else w) <=? 9223372036854775807)%Z) eqn:Hr; [|discriminate].
+  intros H; inversion H; subst. lia.
+Qed.
+
+Lemma bind_params_none_iff r :
+  bind_params r = None <->
+  r_bid r = None \/ r_bid r = Some 0%N \/ r_exp r = None \/ (exists raw, r_exp r = Some raw /\ parse_int64 raw = None).
+Proof.
+  unfold bind_params, bind_bid, bind_exp.
+  destruct (r_bid r) as [n|]; [|split; auto].
+  destruct (n =? 0)%N eqn:Hn.
+  { apply N.eqb_eq in Hn; subst. split; auto. }
+  apply N.eqb_neq in Hn. destruct (r_exp r) as [raw|]; [|split; auto].
+  destruct (parse_int64 raw) eqn:Hp; split; intros H; try discriminate; eauto.
+  - destruct H as [H|[H|[H|(raw' & H & H')]]]; try discriminate; inversion H; congruence.
+  - right; right; right. exists raw; auto.
+Qed.
+
+Lemma unbound_params_422 cfg s r c :
+  validate_header (clock s) (cfg_host cfg) (cfg_secret cfg) (r_cred r) = Principal c ->
+  r_route r = RDeny \/ r_route r = RAllow -> bind_params r = None ->
+  handle true cfg s r = (s, Resp 422 BError).
+Proof. intros Hv [Hr|Hr] Hb; unfold handle; rewrite Hr, Hv, Hb; reflexivity. Qed.
+
+Lemma bound_params_range r b e :
+  bind_params r = Some (b, e) -> b <> 0%N /\ (-9223372036854775808 <= e <= 9223372036854775807)%Z.
+Proof.
+  intros H. apply bind_params_some in H. destruct H as (_ & Hb & raw & _ & Hp). split; [exact Hb|].
+  eapply parse_int64_range; exact Hp.
+Qed.
+
+(* a code appears in an answer only when it has just been minted (status 200) *)
+Lemma uri_only_on_success cfg s r st k : snd (handle true cfg s r) = Resp st (BUri k) -> st = 200%N.
+Proof.
+  unfold handle, session_step, deny_step, allow_step, list_denied_step, list_allowed_step, status_step, admin_gate, mint.
+  repeat match goal with
+         | |- context [match ?x with _ => _ end] => destruct x
+         end; cbn; intros H; try discriminate; inversion H; reflexivity.
+Qed.
